@@ -4,7 +4,7 @@ import HvsrVerif.Model.HvAz
 
 The numeric text (`%.18e`), `json` and `np.loadtxt` are the identity on values (trusted; checked bit for bit by
 the correspondence). What is modelled is hvsrpy's own logic: the column layout, the azimuth labels of the header,
-the run-length grouping the reader performs on them, the rebuild + `update_peaks_bounded` + mask restore.
+the grouping the reader performs on them (label change or restart of the curve numbering), the rebuild + `update_peaks_bounded` + mask restore.
 -/
 namespace HV
 variable {α : Type}
@@ -14,12 +14,33 @@ def expandLabels {L : Type} : List (L × Nat) → List L
   | [] => []
   | (a, n) :: t => List.replicate n a ++ expandLabels t
 
-/-- reader: group consecutive equal labels (`curr_azimuth != prev_azimuth` starts a new group) -/
+/-- reader BEFORE the repair of C12-d: group consecutive equal labels (`curr_azimuth != prev_azimuth` alone starts a new group); kept because
+`C12.group_expand_needs_wf` records why that criterion was not enough -/
 def groupLabels {L : Type} [DecidableEq L] : List L → List (L × Nat)
   | [] => []
   | a :: t =>
     match groupLabels t with
     | (b, n) :: r => if a = b then (b, n + 1) :: r else (a, 1) :: (b, n) :: r
+    | [] => [(a, 1)]
+
+/-- the labels of one azimuth's columns as written: `azimuth a deg | hvsr curve k+1`, …, `curve k+m` -/
+def labelRun {L : Type} (a : L) : Nat → Nat → List (L × Nat)
+  | _, 0 => []
+  | k, m + 1 => (a, k + 1) :: labelRun a (k + 1) m
+
+/-- header labels with their curve numbers (`for curve_idx in range(1, n_curves+1)` per azimuth) -/
+def expandNumbered {L : Type} : List (L × Nat) → List (L × Nat)
+  | [] => []
+  | (a, n) :: t => labelRun a 0 n ++ expandNumbered t
+
+/-- reader after the repair of C12-d: a new group starts where the azimuth label changes OR the curve numbering restarts at one
+(`curr_azimuth != prev_azimuth or (int(curr_curve) == 1 and idx > 1)`) -/
+def groupNumbered {L : Type} [DecidableEq L] : List (L × Nat) → List (L × Nat)
+  | [] => []
+  | [(a, _)] => [(a, 1)]
+  | (a, _) :: (b, j) :: t =>
+    match groupNumbered ((b, j) :: t) with
+    | (c, n) :: r => if a = b ∧ j ≠ 1 then (c, n + 1) :: r else (a, 1) :: (c, n) :: r
     | [] => [(a, 1)]
 
 /-- split a list of columns into consecutive groups of the given sizes -/
@@ -37,10 +58,10 @@ structure TradFile (α : Type) where
   meanCol : List (Option α)
   stdCol : Except String (List (Option α))
 
-/-- what the file holds for an azimuthal result; `labels` are the azimuth labels of the curve columns -/
+/-- what the file holds for an azimuthal result; `labels` are the azimuth labels and curve numbers of the curve columns -/
 structure AzFile (α : Type) (L : Type) where
   freq : List α
-  labels : List L
+  labels : List (L × Nat)
   curves : List (List α)
   range : Range α
   vWins : List (List Bool)
@@ -63,14 +84,14 @@ def readTrad (f : TradFile α) : HvTrad α :=
 
 def writeAz {L : Type} (label : α → L) (dMc : Dist) (s : HvAz α) : AzFile α L :=
   { freq := s.hvsrs.head?.map (·.freq) |>.getD [],
-    labels := expandLabels ((List.zip s.azimuths s.hvsrs).map (fun p => (label p.1, p.2.rows.length))),
+    labels := expandNumbered ((List.zip s.azimuths s.hvsrs).map (fun p => (label p.1, p.2.rows.length))),
     curves := s.hvsrs.flatMap (·.rows),
     range := (s.hvsrs.head?.bind (·.range)).getD (none, none),
     vWins := s.hvsrs.map (·.vWin), vPeaks := s.hvsrs.map (·.vPeak),
     meanCol := s.meanCurve dMc, stdCol := s.stdCurve dMc }
 
 def readAz {L : Type} [DecidableEq L] (parse : L → α) (f : AzFile α L) : HvAz α :=
-  let groups := groupLabels f.labels
+  let groups := groupNumbered f.labels
   let cols := splitBy (groups.map (·.2)) f.curves
   let hs := cols.map (fun rows => updatePeaks f.range false (HvTrad.init f.freq rows))
   let hs' := (List.zip hs (List.zip f.vWins f.vPeaks)).map (fun p => { p.1 with vWin := p.2.1, vPeak := p.2.2 })
